@@ -257,6 +257,52 @@ theorem no_peer_no_key (s : Srv) (proto : Int) (ts : Ts) (src dst : Nat) (r : Ho
     secretValue s none proto ts = none ∧ asHost s none r = none ∧ hostAS s none r = none ∧
     hostHost s none r = none := ⟨rfl, rfl, rfl, rfl, rfl, rfl⟩
 
+/-! ## histories on one server: no state -/
+
+/-- **Statelessness.** On one server, the answer to a request does not depend on what was asked
+    before or after: at every position of every history it is the answer to that request alone. -/
+theorem handlers_stateless (s : Srv) (pre post : List Req) (r : Req) :
+    (serve s (pre ++ r :: post))[pre.length]? = some (handle s r) := by
+  simp [serve]
+
+/-- … in particular for level-1 requests: whatever certificates were verified before, the decision
+    is `level1` of the current request, which looks only at the verifier's answer for the chain
+    presented now (`Peer.auth`), the protocol id and the timestamp — not even at the address. -/
+theorem level1_stateless (s : Srv) (pre post : List Req) (peer : Option Peer) (proto : Int) (ts : Ts) :
+    (serve s (pre ++ Req.l1 peer proto ts :: post))[pre.length]? =
+      some (.level1 (level1 s peer proto ts)) :=
+  handlers_stateless s pre post _
+
+theorem level1_depends_only_on_auth (s : Srv) (a1 a2 : PeerAddr) (auth : Auth) (proto : Int) (ts : Ts) :
+    level1 s (some ⟨a1, auth⟩) proto ts = level1 s (some ⟨a2, auth⟩) proto ts := rfl
+
+/-- a chain that does not verify now yields no key, whatever happened earlier on this server -/
+theorem level1_unverified_never_served (s : Srv) (pre post : List Req) (a : PeerAddr) (auth : Auth)
+    (proto : Int) (ts : Ts) (h : ∀ ia, auth ≠ .tlsCert ia) :
+    (serve s (pre ++ Req.l1 (some ⟨a, auth⟩) proto ts :: post))[pre.length]? = some (.level1 none) := by
+  rw [level1_stateless]
+  cases auth with
+  | tlsCert ia => exact absurd rfl (h ia)
+  | _ => rfl
+
+/-- a level-1 key handed out anywhere in a history is for the AS named by the certificate chain
+    that verified for *that* request -/
+theorem level1_history_only_cert_ia (s : Srv) (hist : List Req) (i : Nat) (m : Level1Meta)
+    (h : (serve s hist)[i]? = some (.level1 (some m))) :
+    ∃ p proto ts, hist[i]? = some (Req.l1 (some p) proto ts) ∧ p.auth = .tlsCert m.dst ∧
+      m.src = s.localIA := by
+  simp only [serve, List.getElem?_map, Option.map_eq_some_iff] at h
+  obtain ⟨r, hr, hh⟩ := h
+  cases r with
+  | l1 peer proto ts =>
+    simp only [handle, Ans.level1.injEq] at hh
+    cases peer with
+    | none => simp [level1] at hh
+    | some p =>
+      have := level1_only_cert_ia s p proto ts m hh
+      exact ⟨p, proto, ts, hr, this.1, this.2.1⟩
+  | _ => simp [handle] at hh
+
 /-! ## T3: the handlers validate before they ask the engine, and the validators' conditions are
     the ones modelled -/
 
@@ -317,5 +363,11 @@ example : level1 exSrv (some exPeer) 1 (some (1700000000, 0)) = some ⟨1, (1700
 /-- the allow-listed host gets the SCMP secret value, not the one of protocol 7 -/
 example : secretValue exSrv (some exPeer) 1 (some (1700000000, 0)) = some ⟨1, (1700000000, 0)⟩ := by decide
 example : secretValue exSrv (some exPeer) 7 (some (1700000000, 0)) = none := by decide
+
+/-- genuine level-1 request of AS 99, then an unverifiable certificate on the same server: the
+    first is served for 99, the second gets nothing -/
+example : serve exSrv [.l1 (some exPeer) 1 (some (1700000000, 0)),
+                       .l1 (some ⟨.tcp [10, 0, 0, 9], .tlsBadCert⟩) 1 (some (1700000001, 0))] =
+    [.level1 (some ⟨1, (1700000000, 0), 42, 99⟩), .level1 none] := by decide
 
 end Scion.C40
